@@ -479,7 +479,11 @@ CHECK = {
             "(exactly representable), rotations 1e-5..0.1 rad with translations up to 2 radii, noisy targets, aligned / indexed "
             "(permuted, with unmatched points) correspondences, preconditioning scale 1e-3..1e3 or none, eight point types; "
             "invariance group: one problem in all presentations; malformed stream. non-trivial = first call returns a finite transform",
-    "trusted": ["hand-written models coq/P2pModel.v + coq/LsModel.v tied by differential execution (this run)",
+    "trusted": ["translate/tr_C05_p2p.py (clang JSON AST of the instantiated members -> coq/gen/SrcP2p.v) and the vocabulary coq/SrcP2pLib.v "
+                "(eig_dot = the model's left-to-right reading of Eigen's dot(); the record LsMethods of solver methods)",
+                "hand-written model coq/P2pModel.v: p2p_row / p2p_y / p2p_scatter / p2p_estimate / p2p_find_corr / p2p_find_aligned / p2p_new / "
+                "p2p_set_preconditioner proved equal to the generated terms (SrcTieC05.v); the LeastSquares model coq/LsModel.v (C07), the "
+                "PreconditionedPointSet accessors and operation sequencing on one object tied by differential execution (this run)",
                 "Eigen::JacobiSVD is an oracle with a contract; realised for execution by an unverified Gallina one-sided Jacobi whose "
                 "contract residual is measured on every call",
                 "extraction (ExtrOcamlBasic), ocaml/numf.ml, ocaml/drv_C05.ml", "harness/C05.cpp, python oracle (fractions.Fraction) in checks/C05.py",
@@ -491,16 +495,41 @@ CHECK = {
                     "failures on problems whose normal matrix has a singular value below epsilon are attributed to C07's finding (same key)"],
     "run_timeout": 900,
     "manifest": {
-        "text": "Coq theorems about a model of the row/residual construction, the scatter into the homogeneous matrix and the "
-                "preconditioner, on top of the LeastSquares model: residual identity row.x - y = n.((I+[w]x)s + tau - t), the returned "
+        "text": "SYNTACTIC TIE: on every run translate/tr_C05_p2p.py regenerates Gallina terms (coq/gen/SrcP2p.v) from the clang JSON AST of the "
+                "INSTANTIATED members of FindRigidTransformationByLeastSquares<PointType> in the current source, for PointType = Vector2, Vector3, "
+                "HomogeneousCoordinates2, HomogeneousCoordinates3 (float and double instantiation must give the same term): the constructor, "
+                "setPreconditioner, both estimate_ overloads (aligned arrays / correspondence vector; four copies of the row-filling code, only the "
+                "taken CARTESIAN_DIM branch is executed, CARTESIAN_DIM being evaluated down to the literals of PointTraits) and the four public find "
+                "overloads (inlined from their own bodies). The loop is one fold_left over the indexes; the member leastSquares_ is an abstract object "
+                "whose methods (setDataSize, J(i,j)= / Y(i)= through getJ()/getY(), estimateUsingSVD, setPreconditionner, setEstimateSize, the default "
+                "constructor) are fields, bound by name, of a record argument. coq/SrcTieC05.v proves FOR EVERY NUMERIC DICTIONARY: the loop writes "
+                "exactly p2p_row of the r-th triple (normal of the TARGET index) into row r of J and p2p_y into Y(r) and touches nothing else "
+                "(C05_source_tie_rows_2d/_3d), the returned matrix is p2p_scatter of the solver's answer (C05_source_tie_scatter), and on the LsModel "
+                "state, from any solver state ready for the estimate size, each estimate_ IS p2p_find_corr / p2p_find_aligned, the functions the "
+                "theorems are about (C05_source_tie_estimate); find = estimate_ (on get() for the preconditioned overloads), constructor = p2p_new, "
+                "setPreconditioner = p2p_set_preconditioner with the scale of the TARGET set. Corollary: the residual identity holds of the "
+                "coefficients the generated loops write (C05_source_tie_residual_identity_2d/_3d), and the normal-equations-and-unique-minimiser claim holds of what each generated "
+                "estimate_ returns on the LsModel state (C05_source_tie_normal_equations_and_minimiser). "
+                "THEOREMS about the model: residual identity row.x - y = n.((I+[w]x)s + tau - t), the returned "
                 "parameters satisfy the normal equations of the linearised problem and minimise its cost, pure translations are "
                 "recovered exactly when the design matrix has full rank, preconditioning invariance; the O(theta^2) rotation error is proved: "
                 "(1-cos t)^2+(t-sin t)^2 <= t^4/4 for all real t, linearisation remainder |(I+tK-R)s|^2 <= t^4/4 |s|^2 in 2D and 3D "
                 "(Rodrigues), hence for exact-motion data with unit normals every solution z of the normal equations (in particular the "
-                "estimate of p2p_estimate) satisfies |J(z-x_true)|^2 <= theta^4/4 sum|s_i|^2, and |z-x_true|^2 <= that / lambda_min. Tied by "
+                "estimate of p2p_estimate) satisfies |J(z-x_true)|^2 <= theta^4/4 sum|s_i|^2, and |z-x_true|^2 <= that / lambda_min. Also tied by "
                 "running the extracted model against the real class (eight point types, sequences of calls on one object).",
-        "note": "Trusted: Coq kernel, real-number axioms, hand-written models (tied only by differential execution), extraction, float "
-                "dictionaries, harness, oracle. Eigen's SVD is a hypothesis. The second-order rotation bound is over the reals on exact-motion data; with noise or rounding it is measured only.",
-        "technique": "Coq proof (ring identities + C07's least-squares theorems + mean-value-theorem bounds on the rotation remainder) + extracted-model correspondence run + exact-rational oracle",
+        "note": "Trusted: Coq kernel, real-number axioms, the translator and its vocabulary (Scalar -> dictionary, size_t -> unbounded nat, "
+                "points = lists of their stored coordinates, Eigen's dot() read as a left-to-right sum, reads past the end of a point set undefined: "
+                "the tie is stated for inputs the model accepts), extraction, float dictionaries, harness, oracle. The LeastSquares solver behind "
+                "the abstract methods is C07's model (tied there and by this run's differential execution); Eigen's SVD is a hypothesis. The tie "
+                "breaks (no Coq proof) on: normal looked up with the source index, a sign / swapped component in the rotation columns, s - t for "
+                "t - s, a row written at another index than the loop counter, the scatter with a wrong sign, one overload differing from the other, "
+                "another solver method or overload; it also breaks on a commutation / re-association of the floating-point expressions (the tie is "
+                "for every dictionary, rounded ones included), reported as no-failing-input-found. Renaming / hoisting into locals / reordering the "
+                "coefficient writes or scatter assignments / if constexpr do not break it. The second-order rotation bound is over the reals on "
+                "exact-motion data; with noise or rounding it is measured only.",
+        "technique": "clang-AST-to-Gallina translation (symbolic execution of the instantiated members, abstract solver object) + Coq tie lemmas "
+                     "for every numeric dictionary (induction on the loop, coefficient writes folded into the model's row ops) + Coq proof (ring "
+                     "identities + C07's least-squares theorems + mean-value-theorem bounds on the rotation remainder) + extracted-model "
+                     "correspondence run + exact-rational oracle",
     },
 }
